@@ -265,9 +265,11 @@ def compare_after_silence(a, b):
     return diffs
 
 
-def in_limbo(a, b):
+def in_limbo(a, b, hist=()):
     """One server has dropped a session for silence and the other has not done so yet: what a later action on that session
     does is not comparable (each is within the heartbeat bound) - such a history is compared but not extended."""
+    if not any(x in ('tick', 'wait41', 'wait20') for x in hist):
+        return False         # no time has passed: nobody can have been dropped for silence
     oa, ob = a.observables(), b.observables()
     ta = {sid for sid, evs in oa['events'].items() if ('disconnect', 'timeout-class') in evs}
     tb = {sid for sid, evs in ob['events'].items() if ('disconnect', 'timeout-class') in evs}
@@ -319,7 +321,7 @@ def explore(depth, first_actions):
                 continue
             seen.add(key)
             states += 1
-            if len(hist) < depth and not in_limbo(a, b):
+            if len(hist) < depth and not in_limbo(a, b, hist):
                 for act in ACTIONS:
                     frontier.append(hist + (act,))
         finally:
@@ -435,7 +437,7 @@ def explore_from(depth, prefix):
                 continue
             seen.add(key)
             states += 1
-            limbo = in_limbo(a, b)
+            limbo = in_limbo(a, b, hist)
             if VARIANT[0] == 'silence':
                 diffs = compare_after_silence(a, b)
                 if diffs:
